@@ -19,7 +19,7 @@ def to_gallina(node):
     if isinstance(node, ast.Expression):
         return to_gallina(node.body)
     if isinstance(node, ast.BinOp):
-        ops = {ast.BitOr: 'N.lor', ast.BitAnd: 'N.land', ast.BitXor: 'N.lxor', ast.LShift: 'N.shiftl', ast.RShift: 'N.shiftr', ast.Add: 'N.add'}
+        ops = {ast.BitOr: 'N.lor', ast.BitAnd: 'N.land', ast.BitXor: 'N.lxor', ast.LShift: 'N.shiftl', ast.RShift: 'N.shiftr', ast.Add: 'N.add', ast.Sub: 'N.sub', ast.Mult: 'N.mul'}
         for k, v in ops.items():
             if isinstance(node.op, k):
                 return '(%s %s %s)' % (v, to_gallina(node.left), to_gallina(node.right))
